@@ -104,10 +104,15 @@ structure LineSt where
   inSeq : Bool := false
   seqBase : Option Nat := none
   out : List OutRow := []
+  /-- `program.row().address_offset` of the writer: 0 after `begin_sequence`, the offset of the last
+      generated row afterwards -/
+  lastOff : Nat := 0
   deriving Repr
 
 /-- one iteration of the `while let Some(instruction)` loop of `convert_line_program`
-    (`SetAddress` inside a sequence is an error: `none`) -/
+    (`SetAddress` inside a sequence is an error: `none`). An `end_sequence` whose address does not
+    resolve (it lies in code that is not emitted) closes the open sequence at the last row that was
+    kept. -/
 def lineStep (g : AddrGen) (ct : CodeTransform) (st : LineSt) : LineInstr → Option LineSt
   | .setAddress a => if st.inSeq then none else some { st with fromBase := a }
   | .row off line => some (emit st (st.fromBase + off) (some line))
@@ -118,17 +123,23 @@ where
     let st1 : LineSt :=
       if st.inSeq then st else
         let b := convertAddress g ct st.fromBase .exclusiveEnd
-        { st with seqBase := b, inSeq := b.isSome }
+        { st with seqBase := b, inSeq := b.isSome, lastOff := if b.isSome then 0 else st.lastOff }
     match st1.seqBase with
     | none => st1
     | some base =>
       match convertAddress g ct fromRowAddr .inclusiveEnd with
-      | none => st1
+      | none =>
+        (match line with
+         | none =>
+           if st1.inSeq then
+             { st1 with out := st1.out ++ [⟨base + st1.lastOff, 0, true⟩], inSeq := false, fromBase := fromRowAddr }
+           else st1
+         | some _ => st1)
       | some addr =>
         let off := addr - base        -- saturating
         match line with
         | none => { st1 with out := st1.out ++ [⟨base + off, 0, true⟩], inSeq := false, fromBase := fromRowAddr }
-        | some l => { st1 with out := st1.out ++ [⟨base + off, l, false⟩] }
+        | some l => { st1 with out := st1.out ++ [⟨base + off, l, false⟩], lastOff := off }
 
 def lineRun (g : AddrGen) (ct : CodeTransform) : LineSt → List LineInstr → Option LineSt
   | st, [] => some st
